@@ -34,6 +34,12 @@ func srcList(s []source) []any {
 	return out
 }
 
+// metadataEndpoint: the test issuers are plain names, not URLs, so the issuer identifier cannot be derived from the
+// metadata URL (verification disabled, a documented option); no HTTP cache: every request reaches the test server.
+func metadataEndpoint(url string) map[string]any {
+	return map[string]any{"url": url, "disable_issuer_identifier_verification": true, "http_cache": map[string]any{"enabled": false}}
+}
+
 func prototypes(c *config.Configuration, srv string) {
 	p := c.Prototypes
 	for _, d := range protos {
@@ -54,6 +60,12 @@ func prototypes(c *config.Configuration, srv string) {
 				"jwks_endpoint": map[string]any{"url": base + "/jwks/{{ .TokenIssuer }}"},
 				"assertions":    map[string]any{"issuers": []any{issOK, iss500, issGarbage, issDrop}, "audience": []any{audOK}},
 			}}
+			if d.Meta { // the issuer (and with it the trusted issuer) and the JWKS endpoint come from the metadata document
+				m.Config = config.MechanismConfig{
+					"metadata_endpoint": metadataEndpoint(base + "/meta/{{ .TokenIssuer }}/.well-known/openid-configuration"),
+					"assertions":        map[string]any{"audience": []any{audOK}},
+				}
+			}
 			if d.ID != "jwt_fb" { // jwt_fb keeps the default key cache (10m), all others fetch every time
 				m.Config["cache_ttl"] = "0s"
 			}
@@ -66,6 +78,11 @@ func prototypes(c *config.Configuration, srv string) {
 				"assertions":             map[string]any{"issuers": []any{issOK}, "audience": []any{audOK}},
 				"cache_ttl":              "0s",
 			}}
+			if d.Meta { // .TokenIssuer is only available for tokens in JWT format: all others belong to the default tenant
+				delete(m.Config, "introspection_endpoint")
+				m.Config["metadata_endpoint"] = metadataEndpoint(base + `/meta/{{ .TokenIssuer | default "` + issOK + `" }}/.well-known/openid-configuration`)
+				m.Config["assertions"] = map[string]any{"audience": []any{audOK}}
+			}
 			if d.Custom {
 				m.Config["token_source"] = srcList(d.Sources)
 			}
@@ -147,6 +164,9 @@ func send(cl *http.Client, a *app.App, pr *app.Probes, w wire) observed {
 	req.Host = "svc.test"
 	for k, v := range w.Headers {
 		req.Header.Set(k, v)
+	}
+	if len(w.ContentType) > 0 {
+		req.Header["Content-Type"] = w.ContentType
 	}
 	req.Header.Set(app.HdrReq, id)
 	resp, err := cl.Do(req)
@@ -232,6 +252,15 @@ func matches(o observed, exp outcome) bool {
 	return true
 }
 
+func matchesAny(o observed, outs []outcome) bool {
+	for _, x := range outs {
+		if matches(o, x) {
+			return true
+		}
+	}
+	return false
+}
+
 // signature computes the narrow class of a disagreement from the failing case.
 func signature(c chain, views []stepView, outs []outcome, o observed) (string, string) {
 	ids := o.ids()
@@ -306,16 +335,21 @@ func (s *stats) seen(t, class string) {
 func TestC04(t *testing.T) {
 	r := core.Begin("C04", "exploration")
 	r.Rule("All 258 type-level chains of length <=3 over {anonymous, unauthorized, basic_auth, jwt, generic, oauth2_introspection}, each with sampled variant assignments " +
-		"(prototype with/without allow_fallback_on_error, default vs. explicitly configured credential sources, live vs. refusing endpoint; rule-level override unset/false/true; " +
+		"(prototype with/without allow_fallback_on_error, default vs. explicitly configured credential sources, live vs. refusing endpoint, jwks/introspection endpoint " +
+		"configured vs. discovered through a metadata_endpoint templated with the token issuer; rule-level override unset/false/true; " +
 		"rule-level user_id/password resp. subject per position), one rule per chain on its own route of one fx-assembled decision service (real MechanismFactory, real rule factory, " +
 		"header finalizer echoing the subject). Requests per chain from a credential catalogue (none; Authorization with a foreign scheme; per type valid / well-formed invalid / " +
-		"endpoint failing / malformed; credentials of a foreign kind; two credentials at once; every configured location header/query/cookie/body). Oracle: documentation-based " +
+		"endpoint failing (incl. issuers that make the templated endpoint url unusable) / malformed; credentials of a foreign kind; two credentials at once; every configured " +
+		"location header/query/cookie/body; one or several blanks between scheme and credentials; body credentials form or JSON encoded with Content-Type spellings: " +
+		"parameters, parameter casing, malformed parameters, header sent twice, other casing of the media type). Oracle: documentation-based " +
 		"3-way classification per authenticator + chain semantics of the statement; compared with status, echoed subject and the recorded sequence of executed authenticators. " +
 		"A case is non-trivial when the model makes at least one fallback decision (an authenticator that does not accept is followed by another one).")
 	r.Assume("test JWKS/introspection/identity endpoints are loopback httptest servers answering as a function of the received credential",
 		"the introspection test server reports valid JWTs as active (it stands for the issuer of these tokens), everything unknown as inactive",
 		"an HTTP answer 200 of the decision service = authenticated; any other status = authentication failed (401/5xx not distinguished by the statement)",
-		"credential shapes the statement leaves open (undecodable/unstructured Basic value, non-JWT for jwt, blank value) are only required never to be accepted by that authenticator")
+		"credential shapes the statement leaves open (undecodable/unstructured Basic value, non-JWT for jwt, blank value) are only required never to be accepted by that authenticator",
+		"parameters of a Content-Type (well-formed or not) and a repeated Content-Type line with the same media type do not make a form/JSON body unusable; "+
+			"a media type written with upper case letters leaves open whether the body is usable (both readings allowed)")
 
 	mt, err := newMinter()
 	if err != nil {
@@ -384,7 +418,7 @@ func TestC04(t *testing.T) {
 		sort.Strings(cls[heimdallType[t]])
 	}
 	r.Set("credential_classes_seen_per_type", cls)
-	r.Set("endpoint_calls", map[string]int64{"jwks": srv.calls.jwks.Load(), "introspection": srv.calls.introspect.Load(), "identity": srv.calls.identity.Load()})
+	r.Set("endpoint_calls", map[string]int64{"jwks": srv.calls.jwks.Load(), "introspection": srv.calls.introspect.Load(), "identity": srv.calls.identity.Load(), "metadata": srv.calls.metadata.Load()})
 
 	total := r.Counter("answer_authenticated") + r.Counter("answer_failed")
 	r.Count("requests_with_chunked_body", int(chunkedBodies.Load()))
@@ -397,6 +431,11 @@ func TestC04(t *testing.T) {
 	r.Require("stops_on_rejection_although_later_would_accept", r.Counter("model_stop_on_rejection_with_later_acceptor"), 50)
 	r.Require("stops_on_endpoint_failure", r.Counter("model_stop_on_endpoint_failure"), 30)
 	r.Require("observed_multi_authenticator_runs", r.Counter("observed_runs_with_fallback"), 200)
+	for _, v := range []string{"accept", "reject"} {
+		r.Require("header_credentials_with_several_blanks_after_scheme_"+v, r.Counter("header_credentials_with_several_blanks_after_scheme_"+v), 30)
+		r.Require("body_credentials_with_other_content_type_"+v, r.Counter("body_credentials_with_other_content_type_"+v), 30)
+	}
+	r.Require("metadata_discovery_issuer_breaks_url", r.Counter("metadata_discovery_issuer_breaks_url"), 20)
 	for _, t := range []string{"basic", "jwt", "intro", "gen"} {
 		for _, v := range []string{"none", "accept", "reject"} {
 			r.Require("oracle_"+heimdallType[t]+"_"+v, r.Counter("oracle_"+heimdallType[t]+"_"+v), 20)
@@ -431,6 +470,18 @@ func runCase(r *core.Run, st *stats, cl *http.Client, a *app.App, pr *app.Probes
 			}
 			if v.Slot != "" {
 				r.Count("location_"+tn+"_"+map[byte]string{'H': "header", 'C': "cookie", 'Q': "query", 'B': "body"}[v.Slot[0]], 1)
+				if it, _ := lr.at(v.Slot); it.Sep != "" {
+					r.Count("header_credentials_with_several_blanks_after_scheme_"+v.Verdict.String(), 1)
+				}
+				if v.Slot[0] == 'B' && (lr.CT != "" || lr.BodyEnc != "") {
+					r.Count("body_credentials_with_other_content_type_"+v.Verdict.String(), 1)
+				}
+			}
+			if p.Meta {
+				r.Count("metadata_discovery_"+tn+"_"+v.Verdict.String(), 1)
+				if v.Seen == "jwt-issbreaksurl" {
+					r.Count("metadata_discovery_issuer_breaks_url", 1)
+				}
 			}
 		}
 		if v.Verdict != vAccept && i < len(c.Elems)-1 {
@@ -461,6 +512,25 @@ func runCase(r *core.Run, st *stats, cl *http.Client, a *app.App, pr *app.Probes
 		r.Count("cases_with_open_classification", 1)
 	}
 	r.Count("recipe_"+lr.Recipe, 1)
+	if lr.hasBodyItems() {
+		ct := lr.CT
+		if ct == "" {
+			ct = "plain"
+		}
+		r.Count("body_content_type_spelling_"+ct, 1)
+		r.Count("body_media_type_"+mediaTypes[lr.BodyEnc], 1)
+		if ctByName(lr.CT).Open {
+			// which reading heimdall follows where the statement leaves the usability of the body open
+			_, used := modelOf(c, lr)
+			_, unused := modelOf(c, lr.withoutBody())
+			switch a, b := matchesAny(o, used), matchesAny(o, unused); {
+			case a && !b:
+				r.Count("open_content_type_body_used", 1)
+			case b && !a:
+				r.Count("open_content_type_body_not_used", 1)
+			}
+		}
+	}
 	r.Count(fmt.Sprintf("chain_length_%d", len(c.Elems)), 1)
 	if o.Status == http.StatusOK {
 		r.Count("answer_authenticated", 1)
@@ -482,10 +552,8 @@ func runCase(r *core.Run, st *stats, cl *http.Client, a *app.App, pr *app.Probes
 	}
 	r.Sample(map[string]any{"chain": c.key(), "request": lr.shapeKey(), "allowed": outs, "observed": o})
 
-	for _, x := range outs {
-		if matches(o, x) {
-			return
-		}
+	if matchesAny(o, outs) {
+		return
 	}
 	sig, what := signature(c, views, outs, o)
 	if sig == "transport-error" {
